@@ -36,14 +36,18 @@ Member(n, t, m, cap, vb, vs, js, pb, ps, jp, seed, label, rng) ==
   LET vals  == [j \in 1..m |-> Val(IF j = js THEN vs ELSE vb, n)]
       proms == [j \in 1..m |-> Prom(IF j = jp THEN ps ELSE pb, vals[j], n)]
   IN [n |-> n, t |-> t, m |-> m, cap |-> cap, vals |-> vals, proms |-> proms, seed |-> seed, label |-> label,
-      rng |-> rng, wit |-> NoWit, mut |-> NoMut,
+      rng |-> rng, wit |-> NoWit, mut |-> NoMut, bseed |-> 0,
       v |-> [n |-> n, t |-> t, cap |-> cap, proms |-> proms, seed |-> seed, label |-> label, pgH |-> 0, pgG |-> 0,
              commit |-> "same", cj |-> 0]]
 Plain(n, t, m, cap, seed) == Member(n, t, m, cap, "mid", "mid", 0, "none", "none", 0, seed, 0, "chacha")
 
 \* `fill`: for batches, a valid member of the batch's shared (n, t) the harness may insert between the members of a
 \* model chunk to bring it to the real chunk size (DESIGN C03); empty otherwise
-ScenF(members, mode, skew, viabytes, fill) == [members |-> members, mode |-> mode, skew |-> skew, viabytes |-> viabytes, fill |-> fill]
+\* `pair`: the harness also runs the unperturbed baseline verification first (C04 pairs); `first`: index of the first
+\* challenge drawn after the perturbed datum (0: none may change); `wdiff`: the batch-weight input must change (C08)
+ScenP(members, mode, skew, viabytes, fill, pair, first, wdiff) ==
+  [members |-> members, mode |-> mode, skew |-> skew, viabytes |-> viabytes, fill |-> fill, pair |-> pair, first |-> first, wdiff |-> wdiff]
+ScenF(members, mode, skew, viabytes, fill) == ScenP(members, mode, skew, viabytes, fill, FALSE, 0, FALSE)
 Scen(members, mode, skew, viabytes) == ScenF(members, mode, skew, viabytes, <<>>)
 One(mb, mode) == Scen(<<mb>>, mode, <<0, 0, 0>>, FALSE)
 Modes == {"VerifyOnly", "RecoverAndVerify", "RecoverOnly"}
@@ -180,8 +184,50 @@ FamCapacity ==
                    n \in {2, 8}, m1 \in {1, 2, 4}, m2 \in {1, 4}, c1 \in {4, 8}, c1v \in {4, 16}, c2 \in {4, 16}, c2v \in {4, 8}, c3 \in {1, 32} }
   IN {s \in Single : s.members[1].cap >= s.members[1].m /\ s.members[1].v.cap >= s.members[1].m} \cup Mixed
 
+(***************************************************************************************************)
+(* hedge (C13, C14): pairs of prover runs with the same blindings and the same (possibly faulty)    *)
+(* external RNG stream, identical or differing in exactly one input                                  *)
+(***************************************************************************************************)
+FamHedge ==
+  LET Base == { [Member(n, t, m, m, "mid", "max", 1, "none", "lt", m, sd, 0, rng) EXCEPT !.bseed = 1] :
+                  n \in {2, 8}, t \in (IF Quick THEN {1, 2} ELSE {1, 2, 3, 6}), m \in {1, 2}, sd \in {0, 1},
+                  rng \in {"zero", "const", "p2", "ctr", "chacha"} }
+      \* the second run: identical, or one input changed (and the verifier-side statement follows it)
+      Vary(a) == {a}
+            \cup { [a EXCEPT !.label = 1, !.v.label = 1] }
+            \cup { LET ps == [a.proms EXCEPT ![j] = IF @ = None THEN U64Zero ELSE U64Dec(@)] IN [a EXCEPT !.proms = ps, !.v.proms = ps] : j \in 1..a.m }
+            \cup { [a EXCEPT !.vals[j] = U64Dec(@)] : j \in 1..a.m }
+            \cup { [a EXCEPT !.seed = 2, !.v.seed = 2] }
+  IN UNION { { Scen(<<a, b>>, "VerifyOnly", NoSkew, FALSE) : b \in {b \in Vary(a) : (b.seed = 0 \/ b.m = 1) /\ \A j \in 1..b.m : U64Le(PVal(b.proms[j]), b.vals[j])} } :
+             a \in {a \in Base : a.seed = 0 \/ a.m = 1} }
+
+(***************************************************************************************************)
+(* bind (C04, C08): an accepted triple and the same triple with exactly one datum perturbed          *)
+(***************************************************************************************************)
+FamBind ==
+  LET BB == IF Quick THEN { <<2, 1, 1, 1, 0>>, <<4, 2, 2, 2, 0>>, <<2, 3, 4, 4, 0>>, <<4, 6, 1, 2, 1>> }
+            ELSE { <<n, t, mc[1], mc[2], 0>> : n \in {2, 4}, t \in {1, 2, 3, 6}, mc \in {<<1,1>>, <<2,2>>, <<4,4>>, <<1,2>>} }
+      Pair(mb, first, wdiff) == ScenP(<<mb>>, "VerifyOnly", NoSkew, FALSE, <<>>, TRUE, first, wdiff)
+      K(b) == Log2(b[1] * b[3])
+      PointMut(b) == { <<[kind |-> "point", slot |-> sl, j |-> 0, how |-> h], IF sl = "A" THEN 1 ELSE K(b) + 3>> : sl \in {"A", "A1", "B"}, h \in {"rand", "other"} }
+                \cup { <<[kind |-> "point", slot |-> sl, j |-> jj, how |-> h], 3 + jj>> : sl \in {"L", "R"}, jj \in 0..(K(b)-1), h \in {"rand", "other"} }
+      ScalMut(b) == { [kind |-> "scalar", slot |-> sl, j |-> 0, how |-> h] : sl \in {"r1", "s1"}, h \in {"rand", "plus1"} }
+               \cup { [kind |-> "scalar", slot |-> "d1", j |-> kk, how |-> h] : kk \in 0..(b[2]-1), h \in {"rand", "plus1"} }
+      VFirst(mb) ==
+           { <<[mb.v EXCEPT !.label = 1 - mb.label], 1>>, <<[mb.v EXCEPT !.pgH = 1], 1>> }
+        \cup { <<[mb.v EXCEPT !.pgG = kk], 1>> : kk \in 1..mb.t }
+        \cup { <<[mb.v EXCEPT !.commit = "rand", !.cj = j], 1>> : j \in 1..mb.m }
+        \cup { <<[mb.v EXCEPT !.proms[j] = Prom(pc, mb.vals[j], mb.n)], IF PVal(Prom(pc, mb.vals[j], mb.n)) = PVal(mb.proms[j]) THEN 0 ELSE 1>> : j \in 1..mb.m, pc \in {"none", "zero", "eq", "max"} }
+        \cup { <<[mb.v EXCEPT !.n = nn], 1>> : nn \in {2, 4, 8} \ {mb.n} }
+        \cup { <<[mb.v EXCEPT !.cap = cc], 0>> : cc \in {c \in {1, 2, 4, 8} : c >= mb.m} }
+  IN UNION { { Pair([BaseMember(b) EXCEPT !.mut = pm[1]], pm[2], FALSE) : pm \in PointMut(b) }
+             \cup { Pair([BaseMember(b) EXCEPT !.mut = sm], 0, TRUE) : sm \in ScalMut(b) }
+             \cup { Pair([BaseMember(b) EXCEPT !.v = vf[1]], vf[2], FALSE) : vf \in VFirst(BaseMember(b)) } : b \in BB }
+
 Scenarios ==
   CASE Family = "complete" -> FamComplete
+    [] Family = "bind"     -> FamBind
+    [] Family = "hedge"    -> FamHedge
     [] Family = "witness"  -> FamWitness
     [] Family = "alter"    -> FamAlter
     [] Family = "promise"  -> FamPromise
